@@ -118,7 +118,19 @@ def make_vocabulary(env: Env | None):
     def completion_inv(fs, j):
         return getattr(fs, "_completion", list(range(len(fs)))).index(j)
 
-    voc = dict(sigma=sigma, sigma_inv=sigma_inv, better=better, implies=implies, fresh=fresh, unchanged=unchanged,
+    def view_eq(a, b):
+        return a.position is b.position and _same(a.cost, b.cost) and _same(a.fitness, b.fitness)
+
+    def greedy_outcome(o, a, b):
+        return (o is b) if b.cost < a.cost else view_eq(o, a)
+
+    def clipf(x, lo, hi):
+        if isinstance(x, float) and math.isnan(x):
+            return x
+        return min(max(x, lo), hi)
+
+    voc = dict(view_eq=view_eq, greedy_outcome=greedy_outcome, clipf=clipf,
+               finite=lambda x: not (isinstance(x, float) and (math.isnan(x) or math.isinf(x))), sigma=sigma, sigma_inv=sigma_inv, better=better, implies=implies, fresh=fresh, unchanged=unchanged,
                heap_unchanged=heap_unchanged, argsort_pos=argsort_pos, user=user, mean=mean, imin=min, imax=max,
                isnan=lambda x: isinstance(x, float) and math.isnan(x),
                isinf=lambda x: isinstance(x, float) and math.isinf(x),
@@ -193,6 +205,8 @@ def monitor_call(contract, func, args: dict, module_globals: dict, call=None):
     for lab, e in contract.labelled("ensures"):
         try:
             ok = eval_clause(e, env, dict(lets, result=result), module_globals)
+        except NameError:
+            continue           # vocabulary without a run-time side: the clause is not evaluable here (never a witness)
         except Exception as ex:  # a clause that cannot be evaluated on this result does not hold
             ok = False
             e = f"{e}   [evaluation error: {type(ex).__name__}: {ex}]"
